@@ -69,7 +69,12 @@ def annotate_loops(body, loops, exlog):
             raise extract.ExtractError(f"loop header `{header}`: expected exactly one match, found {body.count(header)}")
         ml = re.match(r"(.*\bloop)\s*\{\s*$", header, re.S)
         m = re.match(r"\s*for\s+(.+?)\s+in\s+(.+?)\s*\{\s*$", header)
-        if ml:
+        mw = re.match(r"(\s*while\s+.+?)\s*\{\s*$", header, re.S)
+        if mw and not ml and not m:
+            # `while C {`: the clauses go between the condition and `{` (condition unchanged)
+            own = any(re.match(r"\s*(invariant_except_break|invariant|ensures|decreases)\b", l) for l in inv)
+            new = f"{mw.group(1)}\n" + ("" if own else "    invariant\n") + "\n".join(inv) + "\n    {"
+        elif ml:
             # an unconditional `loop {`: the invariant clauses go between `loop` and `{`
             # (clause lines may name their own kind: invariant_except_break / invariant / ensures)
             own = any(re.match(r"\s*(invariant_except_break|invariant|ensures|decreases)\b", l) for l in inv)
@@ -84,7 +89,7 @@ def annotate_loops(body, loops, exlog):
                     inv = [x for x in inv if x is not l]
             new = f"for {m.group(1)} in {itname}: {m.group(2)}\n    invariant\n" + "\n".join(inv) + "\n    {"
         else:
-            raise extract.ExtractError(f"loop header `{header}` is not a `for P in E {{` or `loop {{` header")
+            raise extract.ExtractError(f"loop header `{header}` is not a `for P in E {{`, `while C {{` or `loop {{` header")
         body = body.replace(header, new)
         exlog["rules_applied"].append({"where": "loop annotation", "loop_header": header, "invariant_clauses": len(inv)})
     return body
